@@ -127,6 +127,10 @@ let run_um (mfast : coq_Z) (kprobe : int) (ops : string list) : string =
                let i = ref 0 in
                while !i + 1 < Array.length a do m := w_insert mfast !m a.(!i) a.(!i + 1); i := !i + 2 done;
                setcur !m; "ok"
+      | 'l' -> let m = ref (w_clear mfast cur) in
+               let i = ref 0 in
+               while !i + 1 < Array.length a && !i < 4 do m := w_insert mfast !m a.(!i) a.(!i + 1); i := !i + 2 done;
+               setcur !m; "ok"
       | 'h' -> setcur (w_insert mfast cur a.(0) a.(1)); "ok"
       | 'm' -> s := step mfast !s OMoveFrom; "ok"
       | 'j' -> setcur (step1 mfast cur (OAdd (a.(0), a.(1), a.(2)))); "ok"     (* insert of the key object (class, identity) *)
@@ -165,8 +169,50 @@ let run_um (mfast : coq_Z) (kprobe : int) (ops : string list) : string =
     recs := Buffer.contents b :: !recs) ops;
   String.concat "|" (Stdlib.List.rev !recs)
 
+(* ------------------------------------------------------------------ generated kernels (translator validation) *)
+let out_z = function GenPrelude.Ok v -> zs v | GenPrelude.Stuck -> "Stuck" | GenPrelude.Fuel -> "Fuel" | GenPrelude.Exn -> "Exn"
+let run_gen (w : string list) : string =
+  match w with
+  | ["gc"; cap; mn] -> out_z (Gen_GrowCapacity.coq_GrowCapacity true (z_of_string cap) (z_of_string mn) (z_of_int 0) false)
+  | ["ms"; p; c] -> zs (Gen_ArrayBucket.pvMakeState (z_of_string p) (z_of_string c)) ^ " " ^ zs (Gen_ArrayBucket_s.pvMakeState (z_of_string p) (z_of_string c))
+  | ["gp"; st] ->
+      let load = fun _ -> z_of_string st in
+      let ptr = z_of_int 4096 in
+      let idx = Gen_ArrayBucket.pvGetMemPoolIndex load ptr in
+      let poolf = fun q -> match Gen_ArrayBucket.pvGetMemPoolIndex load q with GenPrelude.Ok v -> v | _ -> z_of_int 0 in
+      out_z idx ^ " " ^ out_z (Gen_ArrayBucket_cnt.pvGetFastCount load poolf ptr)
+  | ["fi"; which; n] ->
+      if which = "7" then out_z (Gen_ArrayBucket.pvGetFastMemPoolIndex (z_of_int 7) (z_of_string n))
+      else out_z (Gen_ArrayBucket_s.pvGetFastMemPoolIndex (z_of_int 2) (z_of_string n))
+  | _ -> "?"
+
+let run_ab2 (mfast : coq_Z) (ops : string list) : string =
+  let s = ref (ab_null, ab_null) in
+  let d1 (a : ab) = repr_str (fst a) ^ ":" ^ String.concat "," (Stdlib.List.map zs (snd a)) in
+  let recs = Stdlib.List.map (fun tok ->
+    let f = String.length tok > 1 && tok.[1] = 'f' in
+    let arg = match String.index_opt tok ',' with Some i -> z_of_string (String.sub tok (i + 1) (String.length tok - i - 1)) | None -> z_of_int 0 in
+    let len (a : ab) = Stdlib.List.length (snd a) in
+    let x = if f then fst !s else snd !s in
+    let o = match tok.[0] with
+      | '+' -> Some (A2 (f, AAdd arg))
+      | '-' -> Some (A2 (f, ARemoveAt (nat_of_int (int_of_z arg))))
+      | 'b' -> Some (A2 (f, ARemoveBack))
+      | 'x' | 'c' -> Some (A2RemoveAll f)
+      | 'w' -> Some A2Swap
+      | 'm' -> Some (A2MoveCtor f)
+      | 'a' -> Some (A2MoveAssign f)
+      | 'y' -> Some (A2CopyCtor f)
+      | _ -> None in
+    ignore (len x);
+    (match o with Some o -> s := ab2_step mfast !s o | None -> ());
+    d1 (fst !s) ^ ";" ^ d1 (snd !s)) ops in
+  String.concat "|" recs
+
 let () = iter_lines (fun line ->
   match words line with
+  | "ab2" :: m :: ops -> print_endline (run_ab2 (z_of_string m) ops)
+  | ("gc" | "ms" | "gp" | "fi") :: _ as w -> print_endline (run_gen w)
   | "mm" :: _bucket :: m :: _vt :: _hm :: ops -> print_endline (run_mm (z_of_string m) ops)
   | "um" :: _bucket :: m :: _hm :: k :: ops -> print_endline (run_um (z_of_string m) (int_of_string k) ops)
   | _ -> print_endline "?")
